@@ -158,7 +158,13 @@ def srvRun : SrvLts.St → List (List SrvLts.Act) → List String → SrvLts.St 
       -- the harness feeds a keep-alive whenever Serve has settled inside its read
       let s2 := SrvLts.serveRun 16 s'
       let s3 := match SrvLts.step false s2 .keepalive with | some x => x | none => s2
-      srvRun s3 rest (res :: acc)
+      -- whether `closeInputStream` waits for a reader held by the application is the
+      -- implementation's choice: the harness gives the reader back before it observes anything
+      let waitsForReader : Bool := match s3.spc with | .shutIn _ => s3.inLock == .app | _ => false
+      let s4 := if waitsForReader then
+          (match SrvLts.step false s3 .appReleaseIn with | some x => SrvLts.serveRun 16 x | none => s3)
+        else s3
+      srvRun s4 rest (res :: acc)
 
 def handle (args : List String) : Option String :=
   match args with
